@@ -839,6 +839,10 @@ class VectorStarSet(object):
                             # we don't have an orthogonal matrix, or we have a rotation, so kick out
                             Nvect = 0
                             continue
+                        if g00 * g11 - g01 * g10 > 0 and ((abs(g00 - 1) > threshold) or (abs(g11 - 1) > threshold)):
+                            # a proper rotation other than the identity (two-fold: -1 in the plane) leaves no vector
+                            Nvect = 0
+                            continue
                         if (abs(g00 - 1) > threshold) or (abs(g11 - 1) > threshold):
                             # if we don't have the identify matrix, then we have to find the one vector that survives
                             if abs(g00 - 1) < threshold:
